@@ -19,7 +19,7 @@ ASSUME = ['"promptly" is a wall-clock notion: the model is total (structural / f
           'CPython resource errors (MemoryError, RecursionError on deeply nested user JSON) are outside the model',
           'the interpreter behaviour under -O is observed through real subprocess runs, not modelled']
 RULE = ('cases = every prefix and single-byte corruptions (three replacement values per offset, sampled) of generated well-formed PELs, '
-        'random byte strings, and CLI runs `peltool.py -f` under python and python -O; non-trivial = the input passes the Private '
+        'random byte strings; every input decoded in-process and again in one `python -O` interpreter (outcomes must be equal); CLI runs `peltool.py -f` under python and python -O; non-trivial = the input passes the Private '
         'Header check (first two bytes PH); distinct by bytes')
 
 
@@ -44,6 +44,28 @@ def run(tier, seed):
     tmp = tempfile.mkdtemp(prefix='c05_')
     try:
         bases = []
+        # designed bases: every kind of section once as the LAST section of a PEL (its trailing fields are where a truncation is
+        # only noticed by the very last bounds check), LP with odd and even target counts, SRC with and without callouts
+        for want in ['src+callouts', 'src', 'eh', 'mt', 'lp-odd', 'lp-even', 'ud', 'ed', 'other']:
+            for _ in range(200):
+                sec = apel.gen_section(rng)
+                k = sec['kind']
+                if (want == k or (want == 'src+callouts' and k == 'src' and sec['src']['callouts'] and sec['src']['callouts']['callouts']) or
+                        (want == 'lp-odd' and k == 'lp' and len(sec['targets']) % 2 == 1 and len(sec['targets']) < 9) or
+                        (want == 'lp-even' and k == 'lp' and len(sec['targets']) % 2 == 0 and len(sec['targets']) < 9 and len(sec['targets']) > 0)):
+                    if want == 'src' and sec['src']['callouts']:
+                        continue
+                    break
+            p = apel.gen_pel(rng, max_sections=rng.choice([0, 1, 2]))
+            if k == 'lp':
+                sec['name'] = sec['name'][:8]
+            p['sections'] = p['sections'][:2] + [sec]
+            apel.fix_real_plugins(p)
+            for s2 in p['sections']:
+                if 'payload' in s2 and len(s2['payload']) > 120:
+                    s2['payload'] = s2['payload'][:rng.randrange(1, 120)]
+            bases.append(p)
+        ndesigned = len(bases)
         for _ in range(40 if thorough else 8):
             p = apel.gen_pel(rng, max_sections=rng.choice([3, 6]))
             for sec in p['sections']:
@@ -60,7 +82,7 @@ def run(tier, seed):
             ks = range(len(data)) if (thorough or len(data) < 400) else sorted(set(rng.sample(range(len(data)), 300) + list(range(0, 90))))
             for k in ks:
                 inputs.append(('prefix' if wf_ok else 'prefix-nowf', data[:k], bi))
-            offs = range(len(data)) if thorough else rng.sample(range(len(data)), min(len(data), 150))
+            offs = range(len(data)) if (thorough or len(data) < 700) else rng.sample(range(len(data)), min(len(data), 300))
             for o in offs:
                 for v in (data[o] ^ 0x01, data[o] ^ 0x80, rng.randrange(256)):
                     if v != data[o]:
@@ -73,9 +95,11 @@ def run(tier, seed):
             inputs.append(('random', b, None))
         replies = lean_batch([env.tokens()] + ['pelraw %s %s' % (apel.tok_cfg(), tb(b)) for _, b, _ in inputs])[1:]
         slow = 0
+        reals = []
         for (kind, b, bi), r in zip(inputs, replies):
             t0 = time.time()
             real = apel.real_decode(b)
+            reals.append(real)
             dt = time.time() - t0
             model = apel.dec_outcome(r)
             ck.case(key=b if b[:2] == b'PH' else None, sample={'kind': kind, 'len': len(b)} if len(ck.samples) < 3 or kind == 'corrupt' else None)
@@ -87,11 +111,40 @@ def run(tier, seed):
                 ck.fail('decoding did not terminate promptly (%.1fs)' % dt, rp, 'slow')
             if kind == 'prefix' and real[0] == 'doc':
                 ck.fail('a proper prefix of a well-formed PEL was decoded instead of rejected', rp | {'actual': str(real[2])[:300]}, 'prefix_decoded')
-            if real[0] == 'error' and real[1] not in ('AssertionError', 'UnicodeDecodeError', 'IndexError', 'AttributeError', 'KeyError', 'ValueError', 'JSONDecodeError', 'RecursionError', 'TypeError'):
+            if real[:2] == ('error', 'SystemExit'):
+                ck.fail('the decoder left through sys.exit() instead of failing with an ordinary error', rp | {'message': real[2]}, 'system_exit')
+            elif real[0] == 'error' and real[1] not in ('Hang', 'AssertionError', 'UnicodeDecodeError', 'IndexError', 'AttributeError', 'KeyError', 'ValueError', 'JSONDecodeError', 'RecursionError', 'TypeError'):
                 ck.fail('unexpected exception class ' + real[1], rp | {'message': real[2]}, 'exception_class')
             if real[0] != 'error' and real[-2 if real[0] == 'doc' else -1]:
                 ck.fail('decoder wrote to stdout while decoding', rp | {'stdout': real[-2 if real[0] == 'doc' else -1][:200]}, 'stdout_noise')
             compare(ck, None, b, real, model, None)
+        # ---- the same inputs in ONE `python -O` interpreter: the outcome of every input must be what it is with assertions enabled
+        hexes = [b.hex() for _, b, _ in inputs]
+        normal = []
+        for (kind, b, bi) in inputs:
+            pass
+        try:
+            po = subprocess.run([common.PY, '-O', '-W', 'ignore', '-B', os.path.join(os.path.dirname(os.path.abspath(__file__)), 'optrun.py')],
+                                input=('\n'.join(hexes) + '\n').encode(), stdout=subprocess.PIPE, stderr=subprocess.PIPE, env=common.child_env(), timeout=1200)
+            olines = po.stdout.decode().split('\n')[:-1]
+            orc = po.returncode
+        except subprocess.TimeoutExpired:
+            olines, orc = [], -999
+        if orc != 0 or len(olines) != len(inputs):
+            ck.fail('decoding the inputs in one `python -O` interpreter did not finish (exit %s, %d of %d answers)' % (orc, len(olines), len(inputs)),
+                    {'op': 'optimised-batch', 'exit': orc, 'answers': len(olines), 'next_input_hex': hexes[len(olines)] if len(olines) < len(hexes) else None}, 'opt_batch')
+        else:
+            import hashlib
+            for (kind, b, bi), ol, nreal in zip(inputs, olines, reals):
+                o = json.loads(ol)
+                n = ['doc', nreal[1], hashlib.sha1(nreal[4].encode()).hexdigest()] if nreal[0] == 'doc' else ['nodoc'] if nreal[0] == 'nodoc' else ['error', nreal[1]]
+                ck.count('python -O batch: %s' % o[0])
+                if o != n and not (o[0] == 'error' and n[0] == 'error'):
+                    rp = {'op': 'parsePEL', 'optimise': True, 'kind': kind, 'data_hex': b.hex(), 'normal': n[:2], 'under_O': o[:2]}
+                    if kind == 'prefix' and o[0] == 'doc':
+                        ck.fail('under python -O a proper prefix of a well-formed PEL was decoded instead of rejected', rp, 'prefix_decoded_O')
+                    else:
+                        ck.fail('decoding gives a different outcome when assertions are disabled (python -O)', rp, 'differs_O')
         # ---- CLI under python and python -O: exit status, no traceback, stdout empty or one JSON document
         cli_inputs = []
         for bi in range(min(len(bases), 3 if not thorough else 8)):
